@@ -255,6 +255,12 @@ class SymStr:
         p = pieces_of(sv)
         if ty in ("alloc::string::String",):
             return [(OK, ("enum", OKV, (sv,)), st)]
+        if ty == "bool":
+            if p is not None and is_concrete(p):
+                s = concrete(p)
+                if s in ("true", "false"):
+                    return [(OK, ("enum", OKV, (("bool", s == "true"),)), st)]
+                return [(OK, ("enum", ERRV, (unk("parsebool"),)), st)]
         if re.fullmatch(r"(u|i)(8|16|32|64|128|size)", ty or ""):
             if p is not None and len(p) == 1 and p[0][0] == "atom" and p[0][2] == "int":
                 return [(OK, ("enum", OKV, (sv,)), st)]
@@ -489,6 +495,12 @@ class SymStr:
                     eq = self.sstr_equal(p0, b)
                     if eq is not None:
                         return [(OK, ("bool", eq if not c.endswith("ne") else not eq), st)]
+        m_ = re.fullmatch(r"core::num::<impl core::str::traits::FromStr for (\w+)>::from_str", c)
+        if m_ and p0 is not None:
+            return self.parse_to(I, st, mk(p0), m_.group(1), n)
+        if c.endswith("as core::str::traits::FromStr>::from_str") and c not in self.facts.fns and p0 is not None:
+            ty = c[1:].split(" as core::str::traits::FromStr>")[0]
+            return self.parse_to(I, st, mk(p0), ty, n)
         # ---------------- iterators over piece lists
         if c.endswith("as core::iter::traits::iterator::Iterator>::next") or c == "core::iter::traits::iterator::Iterator::next":
             r = self.iter_next(I, st, args[0], n)
@@ -503,7 +515,7 @@ class SymStr:
         if c == "alloc::slice::<impl [T]>::join":
             if a0 is not None and a0[0] == "abs" and a0[1] == "svec":
                 sep = pieces_of(I.deref_val(st, args[1]))
-                ps = [pieces_of(x) for x in a0[2]]
+                ps = [pieces_of(I.deref_val(st, x)) for x in a0[2]]
                 if sep is not None and all(x is not None for x in ps):
                     out = []
                     for i, x in enumerate(ps):
